@@ -85,9 +85,15 @@ def r1(ck: Check, gm: GrowthModel) -> None:
                 stop_ = [fm.cfg.loop_header[loop]] if loop is not None else []   # one node per iteration of its region
                 if not any(g.cfgn.id in fm.cfg.reach_avoiding(m_, stop_) for m_ in marks):
                     inner_reset = [g.cfgn]
+            # the element of a loop whose collection was swept before (`for x in L: reset(x)` ... `for x in L: grow(x)`)
+            swept = set()
+            if loop is not None and isinstance(loop, ast.For) and isinstance(loop.target, ast.Name) \
+                    and hk[1] == fm.vkey(ast.Name(loop.target.id, ast.Load()), g.cfgn):
+                from .common import swept_reset
+                swept = {fld for fld in ATTR_FIELDS if swept_reset(fm, loop, hk[0], fld, is_reset_value)}
             for fld in ("attractor_seeds", "attractor_sets"):
                 cuts = [e.cfgn for e in handle_stores(fm, hk, fld) if is_reset_value(e.value)] + exempt
-                if inner_reset:
+                if inner_reset or fld in swept:
                     continue
                 esc = escapes(fm, g.cfgn, cuts, loop)
                 if esc:
@@ -97,7 +103,7 @@ def r1(ck: Check, gm: GrowthModel) -> None:
             # recomputation, expanded_attractor_candidates): they must go too, also where the seeds are replaced
             # by the empty mark
             cuts = [e.cfgn for e in handle_stores(fm, hk, "attractor_candidates") if is_reset_value(e.value)] + exempt
-            esc = None if inner_reset else escapes(fm, g.cfgn, cuts, loop)
+            esc = None if inner_reset or "attractor_candidates" in swept else escapes(fm, g.cfgn, cuts, loop)
             if esc:
                 missing.append(f"attractor_candidates (path reaches {esc})")
             if g.resets and not inner_reset and missing:
